@@ -51,6 +51,18 @@ P = {
  "C19": dict(technique="runtime monitoring: before/after metadata monitor around every timestamp setter + pass-through comparison with the served entry",
              text="Exploration: generated setter sequences over the three fields, files and directories, upper-only / lower-only / copied-up entries on Mem, Phys, Alt, Ovl and stackings, with a host-calibrated value set for PhysicalFS; metadata before/after each setter decides round-trip, independence of the other fields/len/type/bytes, not-supported-without-effect, creation time across appends and adapter pass-through.",
              ref="§4 C19"),
+ "C07": dict(technique="runtime monitoring: call-recording wrapper between altroot and underlying filesystem, decoy snapshots, twin execution, hostile join expressions",
+             text="Exploration: altroots at depth 0-3 over Mem/Phys/Ovl/another altroot with decoys around P; untyped histories whose paths are reached through hostile join expressions; after every step: every call crossing into the underlying filesystem stays at or below P (call log), nothing outside P nor outside a PhysicalFS root directory changed, the view equals the subtree below P, and outcome/kind/value/resulting tree equal those of the translated operation on a twin underlying filesystem.",
+             ref="§4 C07"),
+ "C11": dict(technique="runtime monitoring: pair-model monitor with full snapshots of source and destination filesystems and a route log",
+             text="Exploration: generated source trees and destination positions over ordered pairs of backend/adapter instances (same instance, twin instance, other backend); create_dir_all/remove_dir_all/copy_file/move_file/copy_dir/move_dir are checked for exact effect, copy_dir's count, untouched source, refusal of an existing destination without side effects; the call log classifies which route ran (fast path, NotSupported fallback, cross-instance stream) and the run is inconclusive unless every route was taken.",
+             ref="§4 C11"),
+ "C13": dict(technique="runtime monitoring: catch_unwind + panic hook around every library call of hostile generated workloads (sync, embedded, async; dev and release profiles)",
+             text="Exploration: unrestricted histories (root targets, wrong types, extreme seek offsets, root removal), handle scripts with extreme offsets, handles used after removal/replacement of their file, PhysicalFS over directories with non-UTF-8 names / dangling symlinks / symlink loops, every operation on every EmbeddedFS path, the join sweep and the async port; any unwinding panic (or abnormal process exit) is a violation.",
+             ref="§4 C13"),
+ "C20": dict(level="fault_enumeration", technique="runtime monitoring with fault injection: FileSystem wrapper fails the k-th underlying call, for every k of each sampled case",
+             text="Fault enumeration: for each sampled (configuration, pre-state, operation) the fault-free run counts the N calls into the wrapped filesystems; for every k in 1..N the pre-state is rebuilt and the k-th call (second dimension: the k-th handle read/write/flush) fails with an injected I/O error. Ok is accepted only with the fault-free full effect/value, Err with any state; panics and mutating calls on lower layers are violations. Complete over k per case; the cases themselves are sampled.",
+             ref="§2.5, §4 C20"),
 }
 
 NOT_YET = {
